@@ -5,3 +5,4 @@ pub mod refcodec;
 pub mod refcrypto;
 pub mod runner;
 pub mod sim;
+pub mod timed;
